@@ -12,7 +12,9 @@ def reserved_names():
     mod = core.module('yp_prolog_visitor')
     for s in mod.tree.body:
         if isinstance(s, ast.Assign) and isinstance(s.targets[0], ast.Name) and s.targets[0].id == '_RESERVED_PYTHON_NAMES':
-            return [e.value for e in s.value.elts]
+            if isinstance(s.value, (ast.Tuple, ast.List)) and all(isinstance(e, ast.Constant) and isinstance(e.value, str) for e in s.value.elts):
+                return [e.value for e in s.value.elts]
+            return None        # not a literal tuple of names: the visitor contract cannot be instantiated (reported as out of subset)
     return None
 
 
